@@ -285,6 +285,47 @@ def check(model, tier):
             run.fail("R18.3", inst, f"{c.name}.__iter__ materialises its source (`{src(eager[0])[:60]}`) instead of streaming it", fi=it, node=eager[0])
         else:
             run.ok("R18.3", inst, {"position": src(positions[0])[:70]})
+    # R18.12: what is handed to a row-iterable constructor can be iterated again
+    run.rule("R18.12", "every construction of a RowIterable class in the package passes re-iterable arguments: never a generator expression, an iter/map/filter/zip/enumerate/reversed/itertools call, or a local that some assignment of the function binds to one", 3)
+    ONE_SHOT = {"iter", "enumerate", "zip", "map", "filter", "reversed", "islice", "chain", "from_iterable", "starmap", "takewhile", "dropwhile", "accumulate", "compress", "tee", "zip_longest", "groupby", "pairwise", "batched", "cycle", "repeat", "count", "product"}
+    row_classes = {c.name for c in m.subclasses(base)}
+
+    def _one_shot(e: ast.AST) -> bool:
+        if isinstance(e, ast.GeneratorExp):
+            return True
+        if isinstance(e, ast.IfExp):
+            return _one_shot(e.body) or _one_shot(e.orelse)
+        if isinstance(e, ast.Call):
+            d = dotted(e.func) or ""
+            last = d.split(".")[-1]
+            if last in ONE_SHOT and (d.startswith("itertools.") or "." not in d) and last not in row_classes:
+                return True
+        return False
+
+    for f in m.all_functions():
+        tainted: dict[str, ast.AST] = {}
+        for n in walk_no_nested_defs(f.node):
+            if isinstance(n, (ast.Assign, ast.AnnAssign)) and n.value is not None and _one_shot(n.value):
+                for t in n.targets if isinstance(n, ast.Assign) else [n.target]:
+                    if isinstance(t, ast.Name):
+                        tainted[t.id] = n.value
+        for n in walk_no_nested_defs(f.node):
+            if not (isinstance(n, ast.Call) and (dotted(n.func) or "").split(".")[-1] in row_classes):
+                continue
+            inst = f"{f.qualname}:{(dotted(n.func) or '').split('.')[-1]}"
+            bad = None
+            for a in list(n.args) + [k.value for k in n.keywords]:
+                a2 = a.value if isinstance(a, ast.Starred) else a
+                if _one_shot(a2):
+                    bad = a2
+                elif isinstance(a2, ast.Name) and a2.id in tainted:
+                    bad = tainted[a2.id]
+                elif isinstance(a2, (ast.List, ast.Tuple)) and any(_one_shot(x) or (isinstance(x, ast.Name) and x.id in tainted) for x in a2.elts):
+                    bad = a2
+            if bad is not None:
+                run.fail("R18.12", inst, f"{f.qualname} builds a row iterable from a one-shot iterator (`{src(bad)[:70]}`): the result can be iterated only once", fi=f, node=n)
+            else:
+                run.ok("R18.12", inst)
     # sliced(): the generic one is lazy
     sl = base.methods.get("sliced")
     if sl is None:
